@@ -12,9 +12,14 @@ point runs the REAL comparison through the entry point and compares
 
 with the three-valued verdict of the independent model mc/models/frame_spec.py
 (must pass / must fail / unspecified).  For the file entry points the
-reference (and for assertOnDiskDataFrameCorrect the actual) frame is written
+reference (and for the file-vs-file entry points the actual) frame is written
 by the harness and the model is given what pandas reads back from the file, so
 dtype changes made by the file format are not attributed to tdda.
+
+E3 history layers: sequences of comparisons on ONE ReferenceTest /
+PandasComparison object (state = the history, rebuilt from a fresh object each
+time); every verdict must equal the model's and that of the same comparison on
+a fresh object, i.e. nothing given to one call may leak into a later one.
 """
 import contextlib
 import io
@@ -263,15 +268,37 @@ def gen_cases(tier, layer):
         # of check_data / check_types / check_order (/ check_extra_cols)
         # through every file-based entry point and, for comparison, the two
         # in-memory ones
+        def oset(d):
+            # row deviations do not depend on the column selections
+            if d[0] == 'cell' and isinstance(d[3], list):
+                return 'rel'        # float delta: star + cd x precision
+            return 'rel' if d[0] in ('droprow', 'addrow', 'revrows') \
+                else 'xprod'
+        def keep(d):
+            # quick: one representative of each symmetric family of
+            # structural deviations (thorough: all of them)
+            if th:
+                return True
+            if d[0] in ('rename', 'delcol'):
+                return d[1] == 1
+            if d[0] == 'swap':
+                return (d[1], d[2]) != (0, 2)
+            if d[0] == 'extracol':
+                return d[1] == 'end'
+            return True
         fr = A.csv_triple()
-        for d in A.structural_plus_cells(fr):
+        for d in A.structural_plus_cells(fr, 4 if th else 1):
+            if not keep(d):
+                continue
             for e in ('mem', 'chk') + CSV_ENTRIES + PARQUET_ENTRIES:
-                yield {'e': e, 'f': fr, 'd': [d], 'os': 'xprod'}
+                yield {'e': e, 'f': fr, 'd': [d], 'os': oset(d)}
         triples = A.COVER_TRIPLES if th else A.COVER_TRIPLES[2:3]
         for fr in A.triple_frames(2, triples):
-            for d in A.structural_plus_cells(fr):
+            for d in A.structural_plus_cells(fr, 4 if th else 1):
+                if not keep(d):
+                    continue
                 for e in (('mem', 'chk') if th else ()) + PARQUET_ENTRIES:
-                    yield {'e': e, 'f': fr, 'd': [d], 'os': 'xprod'}
+                    yield {'e': e, 'f': fr, 'd': [d], 'os': oset(d)}
     elif layer == 'H2-histories':
         for i in range(len(A.hist_menu('full'))):
             yield {'k': 'hist', 'menu': 'full', 'prefix': [i]}
@@ -294,18 +321,29 @@ class C05(Check):
                  'independent three-valued frame model')
     rule = ('cases = (entry point in {assertDataFramesEqual, '
             'PandasComparison.check_dataframe, assertDataFrameCorrect vs '
-            'parquet, vs CSV, assertOnDiskDataFrameCorrect}, base frame of 1-3 '
+            'parquet, vs CSV, assertOnDiskDataFrameCorrect (parquet and CSV), '
+            'assertOnDiskDataFramesCorrect, assertCSVFileCorrect, '
+            'assertCSVFilesCorrect, check_serialized_dataframe}, base frame of 1-3 '
             'columns over 10 dtype families with 0-3 rows and nulls anywhere, '
             '0/1/2 deviations from {cell changed / to null / from null / '
             'float delta of 10, 1.6 or 0.1 rounding units, rename, dtype change, '
-            'column swap, row dropped/added, extra column, column removed}), '
+            'column swap, row dropped/added, rows reversed, extra column, '
+            'column removed}), '
             'each evaluated at a set of option points (full product of '
             'check_data/check_types/check_order/check_extra_cols x sortby x '
             'condition x precision x type_matching on the copy layer; star '
             'plus product of the relevant dimensions on deviation layers; '
             'check_dataframe is called with create_temporaries=False, the '
             'assert* entry points write their failure temporaries into the '
-            'sandbox); '
+            'sandbox; L1-xfiles: every structural deviation x every '
+            'combination of check_data/check_types/check_order(/check_extra_'
+            'cols) in {None, False, list, function} through all ten entry '
+            'points, so that a mix-up of two pass-through keywords changes a '
+            'verdict); plus E3 histories: every sequence of 2 (thorough also '
+            '3) comparisons from a menu of 76 (44) ops on ONE ReferenceTest / '
+            'PandasComparison object, rebuilt from a fresh object per '
+            'history, each verdict compared with the model and with the same '
+            'comparison on a fresh object; '
             'non-trivial = the model gives a definite verdict for at least '
             'one option point and the frames have at least one cell or one '
             'deviation')
@@ -328,6 +366,11 @@ class C05(Check):
         'frames are passed to every call)',
         'CSV references only for int64/float64/str frames without empty '
         'strings',
+        'histories: the verdict of a comparison is taken to be a function of '
+        'the two frames and the options of that call only (differential '
+        'oracle against a fresh ReferenceTest object); precision omitted = '
+        'documented default, decided by the model only where rounding to 6 '
+        'places already separates the values',
     ]
 
     def layers(self, tier):
@@ -356,11 +399,10 @@ class C05(Check):
 
     def extra_coverage(self):
         return {'deviation_bound': {'quick': 1, 'thorough': 2},
-                'entry_points': ['assertDataFramesEqual',
-                                 'PandasComparison.check_dataframe',
-                                 'assertDataFrameCorrect(parquet)',
-                                 'assertDataFrameCorrect(csv)',
-                                 'assertOnDiskDataFrameCorrect']}
+                'history_depth': {'quick': 2, 'thorough': 3},
+                'history_menu_ops': {'full': len(A.hist_menu('full')),
+                                     'reduced': len(A.hist_menu('reduced'))},
+                'entry_points': [ENTRY_NAMES[e] for e in sorted(ENTRY)]}
 
     # ------------------------------------------------------------- worker
 
